@@ -20,8 +20,12 @@ def load():
 def main():
     t = load()
     checks = []
+    import importlib, ast
     for pid in sorted(t.CHECKS):
-        c = t.CHECKS[pid]
+        c = dict(t.CHECKS[pid])
+        src = open(os.path.join(ROOT, 'vlib', 'props', pid.lower() + '.py')).read()
+        if any(isinstance(n, ast.Assign) and getattr(n.targets[0], 'id', None) == 'FUZZ' for n in ast.parse(src).body):
+            c['technique'] += '; thorough tier adds a coverage-guided atheris (libFuzzer) campaign over the same generator and oracle, with the pure-Python taurex modules on the path instrumented'
         checks.append({
             'property_id': pid,
             'quick_cmd': '/venv/bin/python run.py %s --tier quick' % pid,
@@ -42,7 +46,7 @@ def main():
                        'reason': t.NOT_APPLICABLE.get(pid, 'check not built yet in this session (planned, see DESIGN.md section 3); not claimed until it runs clean on the unchanged tree')})
     man = {
         'version': 1,
-        'setup_cmd': '/venv/bin/python -c "import hypothesis" 2>/dev/null || /venv/bin/pip install --no-index --find-links /opt/veriftools/wheels hypothesis',
+        'setup_cmd': '(/venv/bin/python -c "import hypothesis" 2>/dev/null || /venv/bin/pip install --no-index --find-links /opt/veriftools/wheels hypothesis) && (test -d /verif/.deps/atheris || /venv/bin/pip install -q --no-index --find-links /opt/veriftools/wheels --target /verif/.deps atheris || true)',
         'hooks': {
             'guard': 'UCL_EXOPLANETS_TAUREX3_PUBLIC_VERIF',
             'enable': 'no source hooks: every observation point is a public or module attribute replaced from the harness; taurex is installed editable so checks import /repo working tree directly',
@@ -54,7 +58,7 @@ def main():
             'name': 'hypothesis-collect-then-shrink',
             'path': '/verif/vlib/runner.py',
             'serves_properties': sorted(t.CHECKS),
-            'kind_free_text': 'Hypothesis 6.168 generators (seeded by VERIF_SEED, database=None) drive per-property executable oracles (reference models, round trips, differential and metamorphic relations); pass 1 collects violated clause labels over all cases, pass 2 shrinks one case per label into a JSON replay; committed replays are re-run without the library on every run',
+            'kind_free_text': 'Hypothesis 6.168 generators (seeded by VERIF_SEED, database=None) drive per-property executable oracles (reference models, round trips, differential and metamorphic relations); pass 1 collects violated clause labels over all cases, pass 2 shrinks one case per label into a JSON replay; committed replays are re-run without the library on every run; in the thorough tier properties that declare a FUZZ table also run atheris/libFuzzer campaigns (vlib/fuzz.py) through hypothesis fuzz_one_input with the same oracle inside the target',
         }],
         'checks': checks,
         'not_applicable': na,
